@@ -52,6 +52,16 @@
 (*         of class "deadline" is being tried).  From then on nobody can    *)
 (*         answer; the call must return an error - never an empty success - *)
 (*         and need not contact anybody.                                    *)
+(*   req   content class of the signing request: "full", or with one part   *)
+(*         absent / degenerate: "noext" (Extensions nil), "emptyext",       *)
+(*         "customext", "nocrit" (CriticalOptions nil), "emptycrit",        *)
+(*         "noprins", "oneprin", "zeroval", "maxval", "nokeymeta", "bare".   *)
+(*         Whatever it is, every contacted endpoint receives it unmodified  *)
+(*         (label field same) and the caller's message is unchanged when    *)
+(*         Sign returns (label field kept).                                 *)
+(*   A bundle may hold two DIFFERENT CA certificates with the same subject  *)
+(*   name ("ca1" and "ca1b": a CA rolled over to a new key): a server      *)
+(*   chaining to either is genuine iff that certificate is configured.      *)
 (*   tries number of tries the retry interceptor makes per endpoint (with   *)
 (*         a backoff delay between them); several tries at one endpoint    *)
 (*         are one contact                                                  *)
@@ -80,6 +90,7 @@ CONSTANTS MaxN,         \* longest endpoint list explored
           Templates,    \* endpoint descriptors explored (records without certs/cm, with comment shapes sh)
           Bundles,      \* CA bundle variants explored: records [cas |-> set of CA names, lay |-> file layout]
           Ctxs,         \* request-context budgets explored: subset of {"wide", "tight", "none", "ample"}
+          Reqs,         \* request content classes explored
           Tries,        \* tries per endpoint explored (subset of 1..3)
           Hists,        \* process histories explored: subset of {"none", "before", "between", "signer", "rotate"}
           BackoffCfgs,  \* backoff configurations explored: records [base, max, mult, jit] (jit in tenths)
@@ -103,14 +114,14 @@ Val(x)   == [neg |-> x < 0, big |-> FALSE, hi |-> 0, lo |-> IF x < 0 THEN 0 - x 
 VLe(a,b) == a.neg \/ (~b.neg /\ ~a.big /\ (b.big \/ a.hi < b.hi \/ (a.hi = b.hi /\ a.lo <= b.lo)))
 NoBo     == [att0 |-> FALSE, base |-> Val(0), min |-> Val(0), max |-> Val(0), bound |-> Val(0)]
 
-NoLbl == [op |-> "init", hang |-> FALSE, ep |-> 0, hs |-> "none", ver |-> "none", cc |-> "none", rpc |-> FALSE, same |-> TRUE,
+NoLbl == [op |-> "init", hang |-> FALSE, kept |-> TRUE, ep |-> 0, hs |-> "none", ver |-> "none", cc |-> "none", rpc |-> FALSE, same |-> TRUE,
           err |-> FALSE, pan |-> FALSE, certs |-> <<>>, cm |-> <<>>, bo |-> NoBo]
 
 ---------------------------------------------------------------------------
 \* transport security, design level: what the TLS client of the RA does with the server it reaches.
 \* Client: RootCAs = exactly the configured bundle, ServerName = the endpoint name, versions {1.2, 1.3}.
 Issuer(e)     == CASE e.id \in {"ca1", "expired", "wrongname"} -> "ca1" [] e.id = "ca2" -> "ca2"
-                   [] e.id = "foreign" -> "caX" [] e.id = "hosttrusted" -> "caH" [] OTHER -> "self"
+                   [] e.id = "ca1b" -> "ca1b" [] e.id = "foreign" -> "caX" [] e.id = "hosttrusted" -> "caH" [] OTHER -> "self"
 ServerVers(e) == CASE e.vmax = "tls13" -> {10, 11, 12, 13} [] e.vmax = "tls12" -> {10, 11, 12} [] OTHER -> {10, 11}
 ClientVers    == {12, 13}
 Negotiated(e) == ClientVers \cap ServerVers(e)                \* the highest common version is used
@@ -125,7 +136,7 @@ ServerTakes(e)  == e.pol \in {"verifyifgiven", "require"} => HintOf(e) = "own"
 Handshake(e, b) == e.id = "plain" \/ (Negotiated(e) # {} /\ VerifyPeer(e, b) /\ ServerTakes(e))
 
 \* transport security, property level (C18): who is a genuine CA server
-Genuine(e, b)     == e.id \in {"ca1", "ca2"} /\ e.id \in b.cas   \* issued by a configured CA for this endpoint, valid now
+Genuine(e, b)     == e.id \in {"ca1", "ca2", "ca1b"} /\ e.id \in b.cas   \* issued by a configured CA for this endpoint, valid now
 HandshakeOk(e, b) == e.id = "plain" \/ (Genuine(e, b) /\ e.vmax \in {"tls12", "tls13"} /\ ServerTakes(e))
 \* request contexts that end before anybody may have answered
 AtEntry       == env.ctx \in {"cancelled", "expired", "expiredwarm"}
@@ -150,9 +161,9 @@ Inst(t, m) == [id |-> t.id, vmax |-> t.vmax, pol |-> t.pol, hint |-> t.hint, cls
 
 AllCAs    == {"ca1", "ca2", "caX"}
 Others(b) == AllCAs \ b.cas                        \* the CA files a history step loads: everything this signer must NOT trust
-NoEnv     == [ctx |-> "wide", tries |-> 1, hist |-> "none", loaded |-> {}, hdone |-> TRUE]
+NoEnv     == [ctx |-> "wide", req |-> "full", tries |-> 1, hist |-> "none", loaded |-> {}, hdone |-> TRUE]
 InitCase == /\ bundle \in Bundles
-            /\ \E c \in Ctxs : \E h \in Hists : \E t \in Tries : env = [ctx |-> c, tries |-> t, hist |-> h, loaded |-> {}, hdone |-> (h = "none" /\ c # "expiredwarm")]
+            /\ \E c \in Ctxs : \E h \in Hists : \E t \in Tries : \E q \in Reqs : env = [ctx |-> c, req |-> q, tries |-> t, hist |-> h, loaded |-> {}, hdone |-> (h = "none" /\ c # "expiredwarm")]
             /\ \E n \in 0..MaxN : \E ts \in [1..n -> Templates] : eps = [m \in 1..n |-> Inst(ts[m], m)]
             /\ env.ctx \in {"cancelled", "expired", "expiredwarm", "cancelmid"} => (env.hist = "none" /\ env.tries = 1)
             /\ env.ctx = "cancelmid" => \E m \in 1..Len(eps) : eps[m].cls = "deadline"
@@ -237,6 +248,7 @@ C17_Contact(l) ==
   /\ l.rpc => l.same                                            \* the request arrives unmodified
 C17_Return(l) ==
   /\ ~l.pan /\ ~l.hang                                          \* it returns (whatever the request budget), it does not crash
+  /\ l.kept                                                     \* the caller's request message is what it was before the call
   /\ IF FirstGood = 0
        THEN l.err                                               \* never an empty success
        ELSE /\ ~l.err
@@ -274,7 +286,7 @@ P_C18 == [][C18_Step]_vars
 
 ---------------------------------------------------------------------------
 \* sanity of the design (invariants of the bounded model)
-TypeOK == /\ env.ctx \in {"wide", "tight", "none", "ample", "cancelled", "expired", "expiredwarm", "cancelmid"} /\ env.tries \in 1..3 /\ env.loaded \subseteq AllCAs
+TypeOK == /\ env.ctx \in {"wide", "tight", "none", "ample", "cancelled", "expired", "expiredwarm", "cancelmid"} /\ env.tries \in 1..3 /\ env.loaded \subseteq (AllCAs \cup {"ca1b"})
           /\ pc \in {"new", "loop", "returned", "refused", "bo"}
           /\ i \in 1..(MaxN + 1) /\ Len(contacted) <= MaxN
           /\ result.done \in BOOLEAN /\ result.err \in BOOLEAN
